@@ -1,6 +1,6 @@
 ------------------------------ MODULE Lifecycle ------------------------------
 (* internal/martian/proxy.go: Serve / handleLoop / Shutdown / Close, and the    *)
-(* closing checks of proxy_conn.go handle() and writeResponse().                 *)
+(* closing checks of proxy_conn.go handle() and writeResponse() (C11, C13, C15). *)
 EXTENDS Integers, Sequences, FiniteSets, TLC
 
 CONSTANTS Conns, MaxReq,
@@ -36,7 +36,6 @@ Accept(c) ==
 \* a connection can also be accepted by an Accept call that was already blocked when closeCh was closed
 AcceptLate(c) ==
   /\ pc[c] = "none" /\ listener = "open" /\ closeCh
-  /\ \A d \in Conns \ {c} : pc[d] # "none" \/ TRUE
   /\ pc' = [pc EXCEPT ![c] = "lock1"] /\ sock' = [sock EXCEPT ![c] = "open"]
   /\ listener' = "returned"            \* Serve returns on its next closing() check
   /\ UNCHANGED <<closeCh, mu, conns, wg, inbox, nreq, sentAfter, fwd, resp, sd, sdBegun, ctx, cl, served>>
@@ -110,11 +109,17 @@ SdPoll == /\ sd = "poll"
           /\ mu' = Free
           /\ UNCHANGED <<closeCh, conns, wg, listener, pc, sock, inbox, nreq, sentAfter, fwd, resp, sdBegun, ctx, cl, served>>
 (* ---------------- Close()  (proxy.go:231-249) ---------------- *)
-ClCall == /\ cl = "idle" /\ sd \in {"err"} /\ cl' = "lock"
+ClCall == /\ cl = "idle" /\ cl' = "lock"     \* Close may be called at any time (HTTPProxy.run calls it after a failed Shutdown)
           /\ UNCHANGED <<closeCh, mu, conns, wg, listener, pc, sock, inbox, nreq, sentAfter, fwd, resp, sd, sdBegun, ctx, served>>
-ClDo   == /\ cl = "lock" /\ mu = Free /\ cl' = "done" /\ closeCh' = TRUE
-          /\ sock' = [c \in Conns |-> IF c \in conns /\ sock[c] \in {"open", "peerclosed"} THEN "closed" ELSE sock[c]]
-          /\ UNCHANGED <<mu, conns, wg, listener, pc, inbox, nreq, sentAfter, fwd, resp, sd, sdBegun, ctx, served>>
+\* the mutex is held while every registered connection is closed, one after the other
+ClLock == /\ cl = "lock" /\ mu = Free /\ mu' = "cl" /\ cl' = "closing" /\ closeCh' = TRUE
+          /\ UNCHANGED <<conns, wg, listener, pc, sock, inbox, nreq, sentAfter, fwd, resp, sd, sdBegun, ctx, served>>
+ClConn(c) == /\ cl = "closing" /\ c \in conns /\ sock[c] \in {"open", "peerclosed"}
+          /\ sock' = [sock EXCEPT ![c] = "closed"]
+          /\ UNCHANGED <<closeCh, mu, conns, wg, listener, pc, inbox, nreq, sentAfter, fwd, resp, sd, sdBegun, ctx, cl, served>>
+ClDone == /\ cl = "closing" /\ (\A c \in conns : sock[c] = "closed") /\ cl' = "done" /\ mu' = Free
+          /\ UNCHANGED <<closeCh, conns, wg, listener, pc, sock, inbox, nreq, sentAfter, fwd, resp, sd, sdBegun, ctx, served>>
+ClDo == ClLock \/ ClDone \/ \E c \in Conns : ClConn(c)
 
 HNext(c) == HLock1(c) \/ HReg(c) \/ HChk1(c) \/ HRead(c) \/ HChk2(c) \/ HRoundTrip(c) \/ HWrite(c)
             \/ HClose(c) \/ HDec(c) \/ HLock2(c) \/ HUnreg(c)
